@@ -987,6 +987,107 @@ func ldr16IndexSearch(c *Ctx) {
 			}
 		}
 	}
+	// Third clause (6ec6605): the walk that collects the variables below a node does not start afresh at every registered
+	// node. The collectors form a call graph; every cycle of it has to pass a collector that answers a node it has
+	// seen from its memo (a return of memo[receiver] and a store memo[receiver] = set), otherwise a chain of n nodes, each
+	// of them registered, is walked n*n/2 steps on every build (review R5: 50 small resources after one rule with
+	// 3000 alternatives took 11 s).
+	var rootCols []*ssa.Function
+	for _, ci := range callsIn(fn) {
+		callee, _ := calleeOf(ci)
+		args := ci.Common().Args
+		if callee == nil || callee.Pkg != fn.Pkg || len(args) != 2 || ci.Value() == nil {
+			continue
+		}
+		if _, isMap := ci.Value().Type().Underlying().(*types.Map); !isMap {
+			continue
+		}
+		for _, l := range loops {
+			if l.Blocks[ci.(ssa.Instruction).Block()] && isRangeValueOf(args[0], l) {
+				rootCols = append(rootCols, callee)
+			}
+		}
+	}
+	if len(rootCols) > 0 {
+		answersFromMemo := func(col *ssa.Function) bool {
+			if len(col.Params) != 2 {
+				return false
+			}
+			isRecv := func(v ssa.Value) bool {
+				if mi, ok := v.(*ssa.MakeInterface); ok {
+					v = mi.X
+				}
+				return v == ssa.Value(col.Params[0])
+			}
+			hit, store := false, false
+			for _, r := range returnsOf(col) {
+				if len(r.Results) == 1 {
+					if e, ok := r.Results[0].(*ssa.Extract); ok && e.Index == 0 {
+						if lk, ok := e.Tuple.(*ssa.Lookup); ok && lk.X == ssa.Value(col.Params[1]) && isRecv(lk.Index) {
+							hit = true
+						}
+					}
+				}
+			}
+			for _, b := range col.Blocks {
+				for _, in := range b.Instrs {
+					if mu, ok := in.(*ssa.MapUpdate); ok && mu.Map == ssa.Value(col.Params[1]) && isRecv(mu.Key) {
+						store = true
+					}
+				}
+			}
+			return hit && store
+		}
+		name := publicName(rootCols[0])
+		edges := map[*ssa.Function][]*ssa.Function{}
+		var all []*ssa.Function
+		seen := map[*ssa.Function]bool{}
+		work := append([]*ssa.Function{}, rootCols...)
+		for len(work) > 0 {
+			f := work[0]
+			work = work[1:]
+			if seen[f] || f.Blocks == nil {
+				continue
+			}
+			seen[f] = true
+			all = append(all, f)
+			for _, ci := range callsIn(f) {
+				if callee, _ := calleeOf(ci); callee != nil && callee.Pkg == fn.Pkg && publicName(callee) == name && receiver(callee) != nil {
+					edges[f] = append(edges[f], callee)
+					work = append(work, callee)
+				}
+			}
+		}
+		// a cycle among the collectors that do not answer from the memo
+		state := map[*ssa.Function]int{}
+		cyc := ""
+		var dfs func(f *ssa.Function)
+		dfs = func(f *ssa.Function) {
+			state[f] = 1
+			for _, g := range edges[f] {
+				if answersFromMemo(g) {
+					continue
+				}
+				if state[g] == 1 {
+					cyc = fnName(g)
+				} else if state[g] == 0 {
+					dfs(g)
+				}
+			}
+			state[f] = 2
+		}
+		memoized := 0
+		for _, f := range all {
+			if answersFromMemo(f) {
+				memoized++
+				continue
+			}
+			if state[f] == 0 {
+				dfs(f)
+			}
+		}
+		c.Check(cyc == "", "WorkingMemory.IndexVariables / every node is visited once while the index is built", p.Pos(fn.Pos()), fmt.Sprintf("%d collectors, %d answer a node seen before from the memo, every cycle of the collector call graph passes one of them", len(all), memoized), "the collector "+cyc+" is on a cycle of the collector call graph none of whose members answers a node it has seen from the memo: a chain of n registered nodes is walked n*n/2 steps on every build, whatever the number of variables (after one rule with 3000 alternatives, 50 small resources took 11 s to add)")
+	}
 	c.Check(perPair == "", "WorkingMemory.IndexVariables / the registry is not asked by snapshot text for every pair of node and variable", p.Pos(fn.Pos()), "no lookup in a registry keyed by snapshot text inside two nested loops, except behind a miss of the pointer-keyed lookup", "for every (node, variable) pair a registry is asked by snapshot text (lookup at "+perPair+"): the key is as long as the nesting is deep and is hashed on every lookup, so the build is of the third power of the nesting depth again, as it was with the text search (D43)")
 	c.Check(allPairs == "", "WorkingMemory.IndexVariables / the index is not built by a text search of every variable in every node", p.Pos(fn.Pos()), "no strings.Contains inside two nested loops over the registries", "every variable's snapshot is searched in every expression's and atom's (strings.Contains at "+allPairs+" inside two nested loops over the registries): `rule R { when a[a[a[…1…]]] == 1 then x = 1; }` with 1000 nested selectors (3 KB) takes 37 s to build, 500 take 4.5 s, 2000 five minutes; the variables below a node can be collected from the node's children instead, which is what the text containment stands for (SNAP-6)")
 }
